@@ -36,15 +36,25 @@ def run(tier, seed, replay=None, with_spans=False, prop="C04"):
     R = vlib.Run(prop, tier, seed)
     proof = vlib.proof_step(prop)
     R.proof_coverage(proof)
+    cov = part(R, tier, json.load(open(replay))["case"]["expr"] if replay else None, with_spans, prop)
+    if cov is not None:
+        R.coverage.update(cov)
+    R.assumptions = ["spans are proc-macro2 fallback spans (span-locations) of tokens parsed from text",
+                     "strsim::jaro_winkler enters the model as a per-case table (bit patterns of the f64 scores)"]
+    return R.finish()
+
+
+def part(R, tier, replay_expr, with_spans, prop, n=None, tag="cases"):
+    """the error-algebra correspondence + holds04; returns the coverage dict (None if the harness does not build)"""
     binary, log = vlib.build_harness()
     if binary is None:
         R.violation("harness-build", "harness does not build against /repo: " + log[-1500:],
                     {"failed": "cargo build vh-rt", "log": log[-4000:]}, found_input=False)
-        return R.finish()
-    n = 3000 if tier == "quick" else 50000
+        return None
+    n = n or (3000 if tier == "quick" else 50000)
     exprs = []
-    if replay:
-        exprs = [json.load(open(replay))["case"]["expr"]]
+    if replay_expr is not None:
+        exprs = [replay_expr]
     else:
         exprs = corpus()
         while len(exprs) < n:
@@ -65,7 +75,7 @@ def run(tier, seed, replay=None, with_spans=False, prop="C04"):
         R.violation("harness-error", "harness could not observe case %d: %s" % (c["id"], json.dumps(r)[:500]),
                     {"case": c, "result": r, "failed": "harness observation"}, found_input=False)
     flag = "true" if with_spans else "false"
-    bad, errors = vlib.coq_eval(prop, errgen.HEADER04, terms, "run04 " + flag + " %s")
+    bad, errors = vlib.coq_eval(prop, errgen.HEADER04, terms, "run04 " + flag + " %s", tag=tag)
     vlib.decide(R, terms, bad, errors,
                 describe=lambda i: "builder expression " + json.dumps(exprs[i]),
                 model_body="Eval vm_compute in (model_outcome04 (c_sugg c) (sim_of (c_sim c)) (c_expr c)).",
@@ -86,7 +96,7 @@ def run(tier, seed, replay=None, with_spans=False, prop="C04"):
     for c in cases:
         r = results.get(c["id"], {})
         outcomes["panic" if "panic" in r else "absent" if r.get("absent") else "value"] += 1
-    R.coverage.update({
+    return {
         "evaluations": len(cases),
         "distinct_nontrivial": distinct,
         "rule": "random builder expressions over the ten leaf kinds and at/with_span/multiple/flatten/iter_nth/clone/"
@@ -97,10 +107,7 @@ def run(tier, seed, replay=None, with_spans=False, prop="C04"):
         "samples": [exprs[i] for i in (0, 3, 7, len(exprs) // 2, len(exprs) - 1) if i < len(exprs)],
         "distribution": {"operators": ops, "max_depth": max(s["depth"] for s in stats),
                          "max_nodes": max(s["nodes"] for s in stats), "outcomes": outcomes},
-    })
-    R.assumptions = ["spans are proc-macro2 fallback spans (span-locations) of tokens parsed from text",
-                     "strsim::jaro_winkler enters the model as a per-case table (bit patterns of the f64 scores)"]
-    return R.finish()
+    }
 
 
 def classify(expr, result, with_spans):
